@@ -6,10 +6,12 @@ from . import c07, c04
 
 
 def mt_sites(facts):
-    """work() call sites that live in a closure passed to a thread spawn (the per-block loop)."""
+    """work() call sites that run on a spawned thread (the per-block loop): in the closure passed to spawn or in a
+    helper function it calls."""
+    ts = thread_side_paths(facts)
     out = []
     for body in runner_bodies(facts):
-        if body.kind != "closure":
+        if body.path not in ts:
             continue
         for ws in work_sites(facts, body):
             out.append(ws)
@@ -164,7 +166,7 @@ def rule_r2(facts, col):
 def run(ctx):
     facts = ctx.facts("default")
     sites = mt_sites(facts)
-    ctx.anchor("C05", len(sites) >= 1, "per-block thread closure calling dyn Block::work() inside a GraphRunner::run impl")
+    ctx.anchor("C05", len(sites) >= 1, "per-block thread loop (spawn closure or its helper) calling dyn Block::work()")
     rule_r1(facts, ctx, sites)
     rule_r2(facts, ctx)
     c07.rule_r4(facts, ctx)   # threads joined (C05.R3)
